@@ -589,6 +589,35 @@ def branch_values_pass(fn: ast.FunctionDef, qual: str, known_locals: Dict[str, s
     return changed_any
 
 
+def self_rebind_pass(fn: ast.FunctionDef, log: List[str], mod: str) -> bool:
+    """G: `x = e1` immediately followed, in the same block, by `x = e2` where e2 reads x exactly once is `x = e2[x := e1]`
+    (`n = a / b; n = max(0, int(n))`): one definition for the rules that resolve a name to its value."""
+    changed = False
+    for blk in _blocks_of(fn):
+        i = 0
+        while i + 1 < len(blk):
+            a, b = blk[i], blk[i + 1]
+            ta = a.targets[0] if isinstance(a, ast.Assign) and len(a.targets) == 1 else (a.target if isinstance(a, ast.AnnAssign) and a.value is not None else None)
+            tb = b.targets[0] if isinstance(b, ast.Assign) and len(b.targets) == 1 else (b.target if isinstance(b, ast.AnnAssign) and b.value is not None else None)
+            if isinstance(ta, ast.Name) and isinstance(tb, ast.Name) and ta.id == tb.id:
+                reads = [n for n in ast.walk(b.value) if isinstance(n, ast.Name) and n.id == ta.id and isinstance(n.ctx, ast.Load)]
+                inner_scopes = any(isinstance(n, (ast.Lambda, ast.ListComp, ast.GeneratorExp, ast.SetComp, ast.DictComp)) for n in ast.walk(b.value))
+                # only clamps / casts of the value just computed (`max(0, int(n))`); other re-bindings are spellings the pinned tree has too
+                clampish = isinstance(b.value, ast.Call) and isinstance(b.value.func, ast.Name) and b.value.func.id in ("max", "min", "int", "float", "abs")
+                if len(reads) == 1 and not inner_scopes and clampish:
+                    class _S(ast.NodeTransformer):
+                        def visit_Name(self, n, nm=ta.id, val=a.value):
+                            return ast.copy_location(copy.deepcopy(val), n) if n.id == nm and isinstance(n.ctx, ast.Load) else n
+                    b.value = _S().visit(b.value)
+                    ast.fix_missing_locations(b)
+                    log.append(f"G {mod}:{getattr(a, 'lineno', 0)} `{ta.id}` re-bound from itself: definitions merged")
+                    del blk[i]
+                    changed = True
+                    continue
+            i += 1
+    return changed
+
+
 def _effect_free(v) -> bool:
     if _pure_temp_value(v):
         return True
@@ -1477,6 +1506,7 @@ class Normalizer:
 
         def each(fn, qual, cls_node):
             fold_function(fn)          # what inlining a helper with constant arguments leaves behind
+            self_rebind_pass(fn, self.log, mod)
             branch_values_pass(fn, qual, known_locals, self.log, mod)
             parallel_and_rename_pass(fn, qual, known_locals, self.log, mod)
             alias_pass(fn, cls_node, self.log, mod)
@@ -2220,6 +2250,13 @@ def constants_and_noise_pass(trees: Dict[str, ast.Module], log: List[str]) -> No
                     t = st.targets[0]
                     if isinstance(t, ast.Name) and counts.get(t.id) == 1 and t.id not in known_mod.get(mod, []):
                         mod_consts.setdefault(mod, {})[t.id] = st.value
+                # `_A, _B = 0, 1`: one constant per position
+                if isinstance(st, ast.Assign) and len(st.targets) == 1 and isinstance(st.targets[0], ast.Tuple) and isinstance(st.value, ast.Tuple) \
+                        and len(st.targets[0].elts) == len(st.value.elts) and all(isinstance(t, ast.Name) for t in st.targets[0].elts) \
+                        and not any(isinstance(v, ast.Starred) for v in st.value.elts):
+                    for t, v in zip(st.targets[0].elts, st.value.elts):
+                        if constant_value(v) and counts.get(t.id) == 1 and t.id not in known_mod.get(mod, []):
+                            mod_consts.setdefault(mod, {})[t.id] = v
                 if isinstance(st, ast.ClassDef):
                     for c in st.body:
                         if isinstance(c, ast.Assign) and len(c.targets) == 1 and constant_value(c.value):
